@@ -181,6 +181,42 @@ class OpGen:
             for n in MATH:
                 if nested and n in MATH_NONEST: continue
                 unary(n)
+        # ---- ALIASING: the scalar operand is a reference to lane k of the vector itself (v /= v[0], v -= Simd::lane(k, v), m ^= m[0]),
+        #      the vector operand is the vector itself (v @= v, v @ v); expected = scalar operation on the ORIGINAL lane operands
+        def alias(name, forms_k, forms_self, values):
+            nrep = 1 if self.quick else 4
+            for S in Slist:
+                L = S * m
+                for k in sorted(set([0, L // 2, L - 1])):
+                    for _ in range(nrep):
+                        for form in forms_k:
+                            for attempt in range(20):
+                                vk = rng.choice(values)
+                                if not valid(T, name, vk, vk): continue
+                                ok = [x for x in values if (valid(T, name, x, vk) if form != "svk" else valid(T, name, vk, x))]
+                                if not ok: continue
+                                vec = [rng.choice(ok) for _ in range(L)]; vec[k] = vk
+                                self.add(T, S, m, name, "%s:%d" % (form, k), vec); break
+                for _ in range(nrep):
+                    ok = [x for x in values if valid(T, name, x, x)]
+                    for form in forms_self:
+                        if ok: self.add(T, S, m, name, form, [rng.choice(ok) for _ in range(L)])
+        sv_ok = not (nested and not getattr(self.ctx, "nested_sv", False))
+        if not isbool:
+            for n in BIN_ARITH: alias(n, ["avsk", "avsl", "vsk", "vsl", "svk"], ["vvself", "avvself"], A)
+        if isint:
+            for n in BIN_INT: alias(n, ["avsk", "avsl", "vsk", "vsl", "svk"], ["vvself", "avvself"], A)
+            for n in ("shl", "shr"): alias(n, ["avsk", "avsl", "vsk"], ["vvself", "avvself"], [str(c) for c in SHIFT_COUNTS[T]])
+        if isbool:
+            for n in ("band", "bor", "bxor"): alias(n, ["avsk", "avsl", "vsk", "vsl", "svk"], ["vvself", "avvself"], A)
+        for n in CMP: alias(n, ["vsk", "vsl", "svk"], ["vvself"], A)
+        for n in LOGIC: alias(n, ["vsk", "vsl"] + (["svk"] if sv_ok else []), ["vvself"], A)
+        for _ in range(12 if self.quick else 80):
+            S = rng.choice(Slist); L = S * m
+            mask = [rng.choice("01") for _ in range(L)]
+            self.add(T, S, m, "", rng.choice(["condself", "condsame"]), mask + [rng.choice(A) for _ in range(L)] + [rng.choice(A) for _ in range(L)])
+            if isbool:
+                self.add(T, S, m, "", "condmask", [rng.choice(A) for _ in range(L)] + [rng.choice(A) for _ in range(L)])
         # interface functions
         unary("nzmask")
         binary("nzmask", ["mor"], pairs); binary("nzmask", ["mand"], pairs)
@@ -231,14 +267,17 @@ def parse_term(s, i=0):
 class OpEval:
     def __init__(self, case):
         t = case.split()
-        self.T, self.S, self.m, self.form, self.name = t[1], int(t[2]), int(t[3]), t[5], t[6]
+        self.T, self.S, self.m, self.form, self.name = t[1], int(t[2]), int(t[3]), t[5].split(":")[0], t[6]
         L = self.S * self.m
         v = t[7:]
         self.vec, self.sc = {}, {}
         f = self.form
         sT = scalar_type(self.T)
         self.sT = sT
-        if f in ("u", "pre", "post", "hmax", "hmin", "lane", "lanes", "icast", "any", "all", "anyf", "allf"): self.vec["a"] = v[:L]
+        if f in ("u", "pre", "post", "hmax", "hmin", "lane", "lanes", "icast", "any", "all", "anyf", "allf",
+                 "avsk", "avsl", "vsk", "vsl", "svk", "vvself", "avvself"): self.vec["a"] = v[:L]
+        elif f in ("condself", "condsame"): self.vec["a"], self.vec["b"], self.vec["c"] = v[:L], v[L:2 * L], v[2 * L:3 * L]
+        elif f == "condmask": self.vec["b"], self.vec["c"] = v[:L], v[L:2 * L]
         elif f in ("vv", "avv", "mor", "mand"): self.vec["a"], self.vec["b"] = v[:L], v[L:2 * L]
         elif f in ("vs", "avs"): self.vec["a"], self.sc["sb"] = v[:L], v[L]
         elif f == "sv": self.sc["sa"], self.vec["b"] = v[0], v[1:1 + L]
@@ -252,7 +291,7 @@ class OpEval:
         return self.vec[h[0]][int(h[1:])]
 
     def leaf_type(self, h):
-        if self.form == "cond" and h[0] == "a": return "bool"
+        if self.form in ("cond", "condself", "condsame") and h[0] == "a": return "bool"
         if self.form == "condb" and h == "sa": return "bool"
         return self.sT
 
@@ -731,7 +770,7 @@ def memcheck(ctx, Slist, lcases, limpl, stats):
 
 def sig_op(case):
     t = case.split()
-    return "C09:op:%s:%s" % (t[6] if t[6] != "-" else t[5], t[5])
+    return "C09:op:%s:%s" % (t[6] if t[6] != "-" else t[5].split(":")[0], t[5].split(":")[0])
 
 
 def run(ctx):
@@ -795,7 +834,8 @@ def run(ctx):
         "evaluations": len(ocases) + len(lcases) + nscalar, "distinct_nontrivial": distinct,
         "rule": "operator table: per type (int unsigned long short char bool float double, nested double/int/bool 3x2, nested aligned 2x4, aligned) every operator "
                 "of simd/DESIGN.md x all pairs of a %d/%d-value alphabet (+-0, +-inf, nan, denormals, INT_MIN/MAX, shift counts) packed into lanes, lane counts %s, "
-                "forms vv/vs/sv/compound/prefix/postfix, cmath overloads, cond/lane/broadcast/implCast/mask reductions; each output lane compared with the C++ scalar operator on "
+                "forms vv/vs/sv/compound/prefix/postfix and ALIASING forms (scalar operand = reference to own lane k in {0, middle, last} through operator[] and Simd::lane(), "
+                "vector operand = the vector itself, cond with aliased arguments / aliased mask; expected = scalar operation on the original lane operands), cmath overloads, cond/lane/broadcast/implCast/mask reductions; each output lane compared with the C++ scalar operator on "
                 "the operands named by the Coq-extracted plan.  dense matrices: FieldMatrix/DynamicMatrix<LoopSIMD<double,S>> n=1..%d, lanes drawn independently from families "
                 "(P*L*U exact, zero pivot, zero/duplicate column or row, graded, random, inf/nan), every lane made singular in turn; distinct = distinct case lines (all non-trivial)"
                 % (len(D_ALPHA), len(I_ALPHA["int"]), Slist, 5 if ctx.quick else 6),
